@@ -161,15 +161,28 @@ def scen_reject(env, cfg):
     sa = env.snap(a.data)
     kind = cfg['kind']
     if kind == 'values':
-        xs = [env.int(f'x[{i}]', -1, 2) for i in range(2)]
+        vt, okind = cfg.get('vtype', 'int'), cfg.get('okind', 'list')
+        if vt == 'real':            # fractions: 0.5 or 1.7 must not be truncated into a bit
+            xs = env.reals('x', 2, -2, 3)
+        elif vt == 'wide':          # integers that wrap to 0/1 in a narrow dtype (256, 257, -255)
+            xs = [env.int(f'x[{i}]', -600, 600) for i in range(2)]
+        else:
+            xs = [env.int(f'x[{i}]', -1, 2) for i in range(2)]
         binary = env.And([env.Or(x == 0, x == 1) for x in xs])
-        for side in ('right', 'left'):
+        mk = {'list': list, 'tuple': tuple, 'ndarray': env.arr}[okind]
+        for side in (('right', 'left') if okind != 'ndarray' else ('right',)):
+            r = None
             try:
-                r = (a + list(xs)) if side == 'right' else (list(xs) + a)
+                r = (a + mk(list(xs))) if side == 'right' else (mk(list(xs)) + a)
                 ok = True
             except ValueError:
                 ok = False
             env.check(f'{side}: concatenation accepted iff the other operand is binary', env.Iff(ok, binary))
+            if ok:
+                got = list(env.items(r.data))
+                exp = (list(env.items(a.data)) + list(xs)) if side == 'right' else (list(xs) + list(env.items(a.data)))
+                env.check(f'{side}: an accepted concatenation holds exactly the operands\' elements',
+                          len(got) == len(exp) and env.And([env.eq(g, e) for g, e in zip(got, exp)]))
     elif kind == '2d':
         for side in ('right', 'left'):
             try:
@@ -312,6 +325,9 @@ def configs(tier):
     out.append(('algebra-str-sep', scen_algebra, dict(la=1, lb=2, other='str', text='10'), {}))
     for kind in ('values', '2d', 'type'):
         out.append((f'reject-{kind}', scen_reject, dict(kind=kind), {}))
+    for vt in ('real', 'wide'):
+        for okind in ('list', 'tuple', 'ndarray'):
+            out.append((f'reject-values-{vt}-{okind}', scen_reject, dict(kind='values', vtype=vt, okind=okind), {}))
     for n in ([3] if q else [1, 3, 4]):
         out.append((f'slice-int-n{n}', scen_slice, dict(n=n, form='int'), {}))
         for step in ((None, 1, -1, 2) if q else (None, 1, -1, 2, -2, 3)):
